@@ -437,6 +437,18 @@ func (g *fileGen) field(m *ir.Message, names *nameSet, embedded map[string]bool,
 				}
 			}
 		}
+		if !reused && fl.Kind == ir.KMessage && fl.Card == ir.Single && rapid.IntRange(0, 9).Draw(t, "valuename") == 0 {
+			// "value" and "key" are the field names of protoc's synthetic map-entry messages: a real
+			// field of that name next to a map is a classic source of mixed-up lookups
+			for _, cand := range []string{"value", "Value", "key"} {
+				if names.okField(cand) {
+					fl.Name = cand
+					names.addField(cand)
+					reused = true
+					break
+				}
+			}
+		}
 		if !reused {
 			fl.Name = names.fresh(t, "fname")
 			if fl.Kind == ir.KMessage {
